@@ -94,7 +94,7 @@ def run(ctx):
         if r is None:
             crashed.append(out[-800:])
             continue
-        isteps += [st for st in r["steps"] if "exception" not in st and st["op"] in ("add", "opadd", "dmadd", "apply", "opop", "conj_trans", "move", "scale", "conj", "dmapply_l", "dmapply_r")]
+        isteps += [st for st in r["steps"] if "exception" not in st]
     try:
         os.rmdir(tmp)
     except OSError:
@@ -131,7 +131,9 @@ def run(ctx):
                     continue
                 for k, st in enumerate(chunk):
                     n_eval += 1
-                    if vals[4 * k + 2]:
+                    # labels of the result, and operands / every other live object after the call (their labels
+                    # must still be the ones exported before the call)
+                    if vals[4 * k + 2] or vals[4 * k + 3] or C3.operands_after_mismatch(st):
                         label_mism.append(st)
 
     if not (ok_build and ok_props):
@@ -154,15 +156,18 @@ def run(ctx):
     for st in label_mism:
         by_op.setdefault(st["op"], []).append(st)
     if by_op:
-        rc, r, out = ctx.impl("c03_replay.py", {"steps": [{k_: v_ for k_, v_ in lst[0].items() if k_ != "out"} for lst in by_op.values()]}, timeout=300)
+        rc, r, out = ctx.impl("c03_replay.py", {"steps": [{k_: v_ for k_, v_ in lst[0].items() if k_ not in ("out", "after", "live_changed")} for lst in by_op.values()]}, timeout=300)
         codes = r["codes"] if r else [None] * len(by_op)
         for (op, lst), code in zip(by_op.items(), codes):
             st = lst[0]
-            slim = {k_: v_ for k_, v_ in st.items() if k_ != "out"}
+            slim = {k_: v_ for k_, v_ in st.items() if k_ not in ("out", "after", "live_changed")}
             repro = ("import sys, json\nsys.path.insert(0, '/verif/harness/impl')\nimport c03_replay\nstep = json.loads(r'''%s''')\nsys.exit(c03_replay.replay(step))\n" % json.dumps(slim)) if code else None
-            ctx.violation("corr-labels:" + op, "correspondence Model/Qn.v vs implementation for the labels of `%s`; the preservation theorem of Props/C06.v for this operation no longer describes the code" % op,
-                          {"op": op, "mismatching_steps": len(lst), "impl_result_labels": {"qn": st["out"][0]["qn"], "qnidx": st["out"][0]["qnidx"], "qntot": st["out"][0]["qntot"]},
-                           "operand_centres": [o["qnidx"] for o in st["in"]]}, found=repro is not None, repro=repro)
+            ctx.violation("corr-labels:" + op, "correspondence Model/Qn.v vs implementation for the labels of `%s` (result, or operands / other live objects after the call); the preservation theorem of Props/C06.v for this operation no longer describes the code" % op,
+                          {"op": op, "mismatching_steps": len(lst),
+                           "impl_result_labels": {"qn": st["out"][0]["qn"], "qnidx": st["out"][0]["qnidx"], "qntot": st["out"][0]["qntot"]} if st.get("out") else None,
+                           "operand_centres": [o["qnidx"] for o in st["in"]],
+                           "operand_qntot_before_after": [[b_["qntot"], a_["qntot"]] for b_, a_ in zip(st["in"], st.get("after") or [])],
+                           "other_live_objects_changed": len(st.get("live_changed") or [])}, found=repro is not None, repro=repro)
     for kk, fl in fails.items():
         ctx.violation(kk, "dense oracle only: %s" % kk, fl["detail"], found=fl.get("repro") is not None, repro=fl.get("repro"))
 
